@@ -68,7 +68,7 @@ PROPS["C16"] = dict(
 )
 
 PROPS["C19"] = dict(
-    modules=["contracts.C19_status", "contracts.C11_need", "contracts.C19_targets", "contracts.C06_clean"],
+    modules=["contracts.C19_status", "contracts.C11_need", "contracts.C19_targets", "contracts.C06_clean", "contracts.C04_noop"],
     decided=["flag logic of report_unbuilt and its helpers (FAILED, PENDING, DRAINED, WARNING bits) against the "
              "property's sentence", "Builder.finalize stores the code", "TUI status translation keeps every reported bit",
              "classification of glob violations"],
@@ -123,7 +123,7 @@ PROPS["C15"] = dict(
 )
 
 PROPS["C10"] = dict(
-    modules=["contracts.sched_sql", "contracts.C12_limits", "contracts.C10_dispatch", "contracts.C10_bounded"],
+    modules=["contracts.sched_sql", "contracts.C12_limits", "contracts.C10_dispatch", "contracts.C09_setters", "contracts.C10_bounded"],
     decided=["the dispatch query is exact over the cached columns (both directions)", "coherence of _ready / _has_hash: "
              "every row event in the read footprint has a trigger flagging the affected steps; only the recomputation "
              "clears the flag; recomputation precedes selection in the same transaction",
@@ -141,7 +141,7 @@ PROPS["C10"] = dict(
 )
 
 PROPS["C03"] = dict(
-    modules=["contracts.sched_sql", "contracts.C12_limits", "contracts.C10_dispatch", "contracts.C03_inputs", "contracts.C03_rerun"],
+    modules=["contracts.sched_sql", "contracts.C12_limits", "contracts.C10_dispatch", "contracts.C03_inputs", "contracts.C03_rerun", "contracts.C09_setters"],
     decided=["a selected step is ready, and ready means every initial input attached and BUILT/CONFIRMED, no attached "
              "dynamic input PLANNED/OUTDATED, no VOLATILE input", "_derive_job sanity checks", "a hash is recorded only "
              "if no input changed unexpectedly, no amended input was unavailable or unfresh and the run succeeded",
@@ -190,7 +190,7 @@ PROPS["C08"] = dict(
 )
 
 PROPS["C09"] = dict(
-    modules=["contracts.C10_dispatch", "contracts.C08_claims", "contracts.C09_invariants", "contracts.C09_hashes", "contracts.C03_rerun", "contracts.C19_targets", "contracts.C09_bounded"],
+    modules=["contracts.C10_dispatch", "contracts.C08_claims", "contracts.C09_invariants", "contracts.C09_hashes", "contracts.C03_rerun", "contracts.C19_targets", "contracts.C09_setters", "contracts.C09_bounded"],
     decided=["Workflow.update_file_hashes applies the transition table record by record (scoped: requests of two paths; every "
              "combination of cause, old state and hash-known-ness): refusal exactly outside the table, the table's new state and "
              "the given hash written, exactly the table's follow-up on the record's own file, writes before follow-ups; "
@@ -224,7 +224,7 @@ PROPS["C09"] = dict(
 )
 
 PROPS["C04"] = dict(
-    modules=["contracts.sched_sql", "contracts.C12_limits", "contracts.C10_dispatch", "contracts.C03_inputs", "contracts.C13_hash", "contracts.C04_noop", "contracts.C04_watcher", "contracts.C19_targets", "contracts.C04_bounded"],
+    modules=["contracts.sched_sql", "contracts.C12_limits", "contracts.C10_dispatch", "contracts.C03_inputs", "contracts.C13_hash", "contracts.C04_noop", "contracts.C04_watcher", "contracts.C19_targets", "contracts.C09_setters", "contracts.C04_bounded"],
     decided=["reset_interrupted_steps changes no step state and marks nothing pending when no step is RUNNING, CHECKING or "
              "FAILED", "Executor._run_hash_job applies a recomputed file hash only if it differs from the stored one or the "
              "cause is CONFIRMED", "FileHash.refreshed returns the stored hash when mode, mtime, size and inode are unchanged "
@@ -244,8 +244,7 @@ PROPS["C04"] = dict(
 )
 
 PROPS["C05"] = dict(
-    modules=["contracts.sched_sql", "contracts.C12_limits", "contracts.C10_dispatch", "contracts.C03_inputs",
-             "contracts.C04_noop", "contracts.C15_atomic", "contracts.C05_crash", "contracts.C05_bounded"],
+    modules=["contracts.sched_sql", "contracts.C12_limits", "contracts.C10_dispatch", "contracts.C03_inputs", "contracts.C04_noop", "contracts.C15_atomic", "contracts.C05_crash", "contracts.C09_setters", "contracts.C05_bounded"],
     decided=["reset_interrupted_steps leaves no step RUNNING or CHECKING, changes no other step state except to PENDING, and "
              "hands every attached FAILED step (formerly FAILED or RUNNING) to mark_step_pending", "mark_step_pending "
              "outdates the BUILT outputs of the step (C03)", "a step is dispatched to RUNNING only without a stored hash, "
